@@ -138,10 +138,13 @@ func NewChannel(topicName string, channelName string, nsqd *NSQD,
 	return c
 }
 
-func (c *Channel) initPQ() {
+// initPQ installs fresh in-flight and deferred structures and returns the
+// in-flight set it replaced
+func (c *Channel) initPQ() map[MessageID]*Message {
 	pqSize := int(math.Max(1, float64(c.nsqd.getOpts().MemQueueSize)/10))
 
 	c.inFlightMutex.Lock()
+	discarded := c.inFlightMessages
 	c.inFlightMessages = make(map[MessageID]*Message)
 	c.inFlightPQ = newInFlightPqueue(pqSize)
 	c.inFlightMutex.Unlock()
@@ -150,6 +153,8 @@ func (c *Channel) initPQ() {
 	c.deferredMessages = make(map[MessageID]*pqueue.Item)
 	c.deferredPQ = pqueue.New(pqSize)
 	c.deferredMutex.Unlock()
+
+	return discarded
 }
 
 // Exiting returns a boolean indicating if this channel is closed/exiting
@@ -216,7 +221,7 @@ func (c *Channel) empty() error {
 	c.Lock()
 	defer c.Unlock()
 
-	c.initPQ()
+	discarded := c.initPQ()
 
 	verifPoint("empty:before-drain")
 	for {
@@ -231,8 +236,16 @@ func (c *Channel) empty() error {
 
 finish:
 	err := c.backend.Empty()
-	// reset the consumers only now: the reset makes a consumer whose RDY window was
-	// full ready again, and it must find nothing of what this empty discards
+	// release the consumers only now: it makes a consumer whose RDY window was full
+	// ready again, and it must find nothing of what this empty discards. Each
+	// discarded in-flight message is taken off its holder's count exactly once
+	// (here, because FIN/REQ/timeout can no longer pop it), instead of zeroing the
+	// count underneath a FIN or a delivery that is adjusting it
+	for _, msg := range discarded {
+		if client, ok := c.clients[msg.clientID]; ok {
+			client.TimedOutMessage()
+		}
+	}
 	for _, client := range c.clients {
 		client.Empty()
 	}
